@@ -2,6 +2,7 @@ SPECIFICATION Spec
 CONSTANTS
   Classes = {"gaussian", "spline"}
 INVARIANT NeverSilentUnlessAsked
+INVARIANT GuardCoversTheWindow
 INVARIANT NeverEmpty
 INVARIANT CappedOnlyIfAsked
 INVARIANT Emit
